@@ -149,7 +149,7 @@ def grid_idl(rng, n, g, first=None):
     return range(lst[0], lst[-1] + int(d[0]), int(d[0])) if len(set(d)) == 1 else [int(x) for x in lst]
 
 
-LAYOUT_CLASSES = ['same', 'strided', 'gapped', 'overlap', 'replica_subset', 'second_ensemble', 'multi_replica', 'bare_name', 'replica_subset_gapped', 'windows', 'prefix_ensembles']
+LAYOUT_CLASSES = ['same', 'strided', 'gapped', 'overlap', 'replica_subset', 'second_ensemble', 'multi_replica', 'bare_name', 'replica_subset_gapped', 'windows', 'prefix_ensembles', 'fake_union']
 
 
 def operand_layouts(rng, cls, k, nmin=5, nmax=24):
@@ -227,6 +227,20 @@ def operand_layouts(rng, cls, k, nmin=5, nmax=24):
         res = [full]
         for i in range(1, k):
             res.append([full[int(rng.integers(0, 2))]] if rng.random() < 0.7 else full)
+        return res
+    if cls == 'fake_union':
+        # different lists whose UNION is irregular although its first, second and last entry and its length are those of a range
+        u = list(make_idl(rng, 'fake_range', max(n, 7)))
+        res = []
+        for i in range(k):
+            drop = set(int(x) for x in rng.choice(np.arange(1, len(u) - 1), size=int(rng.integers(1, max(2, len(u) // 3))), replace=False))
+            if i == 0:
+                drop0 = set(drop)
+            elif i == 1:
+                drop = {int(rng.integers(1, len(u) - 1))} - drop0          # the first two operands together cover the whole list
+            lst = [c for j, c in enumerate(u) if j not in drop]
+            d = np.diff(lst)
+            res.append([('A|r1', range(lst[0], lst[-1] + int(d[0]), int(d[0])) if len(set(d.tolist())) == 1 else lst)])
         return res
     if cls == 'prefix_ensembles':
         # two ensembles whose names are prefix-related, with '|replica' parts: plain string order puts 'ens10|r1' before 'ens1|r1'
